@@ -95,10 +95,12 @@ type FieldBuildContext struct {
 func NewFieldBuildContext(m MessageBuildContext, field *FieldDescriptorProtoExt, index int) (*FieldBuildContext, error) {
 	typeName := m.GetName() + "." + field.GetName()
 	path := m.GetPath() + "." + field.GetName()
-	// If the field is an embedded field, path should be
-	// message name, instead of full path to message name.
+	// If the field is an embedded field, it adds nothing to the path: its children
+	// are addressed as if they were declared in the embedding message. The path of
+	// the embedding message (not its bare name) keeps the path rooted at the top
+	// level type when the embedding message is itself nested.
 	if gogoproto.IsEmbed(field.FieldDescriptorProto) {
-		path = m.GetName()
+		path = m.GetPath()
 	}
 
 	var t string
